@@ -23,6 +23,8 @@ type yamlR struct {
 	anchor  map[*Node]string
 	emitted map[*Node]bool
 	nanchor int
+	left    map[*Node]int // aliases still to be written per anchored node
+	free    []string      // anchor names whose node has no alias left: may be redefined
 	err     error
 	depth   int
 }
@@ -71,13 +73,35 @@ func (r *yamlR) props(n *Node) (alias string, isAlias bool, anchor string) {
 		return "", false, ""
 	}
 	if r.emitted[n] {
+		r.left[n]--
+		if r.left[n] == 0 {
+			r.free = append(r.free, r.anchor[n])
+		}
 		return "*" + r.anchor[n], true, ""
 	}
-	r.nanchor++
-	name := "a" + strconv.Itoa(r.nanchor)
+	return "", false, "&" + r.define(n)
+}
+
+// define picks the anchor name for n: a fresh one, or - YAML lets a name be
+// redefined, an alias then means the latest definition - one whose earlier
+// holder has no alias left to come.
+func (r *yamlR) define(n *Node) string {
+	var name string
+	if len(r.free) > 0 && r.chance(0.5) {
+		i := r.o.Rng.IntN(len(r.free))
+		name = r.free[i]
+		r.free = append(r.free[:i], r.free[i+1:]...)
+	} else {
+		r.nanchor++
+		name = "a" + strconv.Itoa(r.nanchor)
+	}
 	r.anchor[n] = name
 	r.emitted[n] = true
-	return "", false, "&" + name
+	if r.left == nil {
+		r.left = map[*Node]int{}
+	}
+	r.left[n] = r.refs[n] - 1
+	return name
 }
 
 func (r *yamlR) useFlow(n *Node) bool {
@@ -103,10 +127,7 @@ func (r *yamlR) top(n *Node) {
 	}
 	// No anchor on the root.
 	if r.o.Anchors && r.refs[n] > 1 {
-		r.nanchor++
-		r.anchor[n] = "a" + strconv.Itoa(r.nanchor)
-		r.emitted[n] = true
-		r.b.WriteString("&" + r.anchor[n] + "\n")
+		r.b.WriteString("&" + r.define(n) + "\n")
 	}
 	r.block(n, 0)
 }
